@@ -13,6 +13,14 @@ RULES = {
 
 
 def run(ctx, chk):
+    _run(ctx, chk)
+    if ctx.tier == "thorough":
+        from ..witness import run_witnesses
+        chk.rule("W", "(thorough) compile_fail witnesses: naming the private state of the queue from outside the crate is rejected by rustc (E0616), while the twin using only public accessors type-checks")
+        run_witnesses(ctx, chk, "W", ['queue'])
+
+
+def _run(ctx, chk):
     for k, v in RULES.items():
         chk.rule(k, v)
     chk.explanation = (
